@@ -12,6 +12,12 @@ ENGINES = [
      'kind_free_text': 'preemption-bounded controlled scheduler over compiler-inserted load/store hooks with conflict (race) monitor'},
 ]
 TEXT = {
+    'C02': {
+        'level': 'Every template with <=3 (quick) / <=4 (thorough) nodes derivable from the documented grammar - 47 leaf tags ({var:}/{raw:} with name, index and mixed paths, resolvable or not; {math:}; {svar:} with var/raw/math sub-tags, missing and non-text phrases; {if} with sub-tags, variable-only and unevaluable cases), <if>/<else if>/<elseif />/<else>/<else /> over 7 cases, <loop> over arrays, objects (keys), sorted both ways, grouped, root set, missing/scalar sets and nested loops over the outer value, nesting <=3 - is rendered against 6 value trees (base, wrong kinds, numbers, array root, removed members, empty) as char and char32_t in SSE2, AVX2 and scalar builds and compared with an independent reference interpreter written from Documentation/Template.md. Where the document and the pinned suite leave a point open (unresolved {var:NAME[path]} inside an object loop; unevaluable inline-if case) the reference admits both readings, applied uniformly per rendering.',
+        'design_ref': 'DESIGN.md §5 C02, Appendix A',
+        'note': 'Reference interpreter (props/C02.cpp) and expression reference (ref/expr_ref.hpp) are the trusted base; reals need at most two fraction digits; sort judged on uniform arrays and objects. Known finding: inline-if attributes in an order other than case-first are documented but not implemented.',
+        'technique': 'bounded-exhaustive grammar enumeration on the implementation with differential reference interpreter',
+    },
     'C16': {
         'level': 'An allocation ledger plugged into the seam the library\'s own tests use (Memory::Allocate/Deallocate -> MemoryRecord) is checked between ALL transitions of breadth-first operation-history searches (depth 4 quick / 5 thorough, canonical-state dedup) over Array<int>, Array<Tracked>, String, StringStream, HArray, HList, Value (all of the C12-C14 alphabets) and a dedicated tag-cache lifetime system (parse 12 templates covering every tag kind, copy, move, self-assign, clear, reset, compress, drop, append, destroy in either order, render through either cache = fresh render); and after every text of the JSON unit space (every rejected text included) and the template token/deviation space (every malformed template included, rendered directly and through a copied cache whose original is destroyed first). Unknown release = foreign/double release; live blocks when all objects are gone = leak; the ASan variant adds use-after-release.',
         'design_ref': 'DESIGN.md §5 C16',
